@@ -144,25 +144,74 @@ func (n *pnode) want() string {
 	return "?"
 }
 
-// sexp for the Lean printer (binary sublanguage only)
+// sexp for the Lean printer
 func (n *pnode) leanTree() (string, bool) {
+	kids := make([]string, len(n.kids))
+	for i, k := range n.kids {
+		s, ok := k.leanTree()
+		if !ok {
+			return "", false
+		}
+		kids[i] = s
+	}
 	switch n.kind {
 	case "atom":
 		return fmt.Sprintf("(a %d)", n.k), true
 	case "bin":
-		l, ok1 := n.kids[0].leanTree()
-		r, ok2 := n.kids[1].leanTree()
-		return "(b " + n.op + " " + l + " " + r + ")", ok1 && ok2
+		return "(b " + n.op + " " + kids[0] + " " + kids[1] + ")", true
+	case "un":
+		return "(u " + n.op + " " + kids[0] + ")", true
+	case "tern":
+		return "(t " + kids[0] + " " + kids[1] + " " + kids[2] + ")", true
+	case "call":
+		return "(call " + kids[0] + " " + kids[1] + ")", true
+	case "index":
+		return "(idx " + kids[0] + " " + kids[1] + ")", true
+	case "slice":
+		return "(sl " + kids[0] + " " + kids[1] + " " + kids[2] + ")", true
+	case "member":
+		return "(mem " + kids[0] + ")", true
 	}
 	return "", false
 }
 
-func (n *pnode) tokens(c int) string { // printMin as the Lean driver prints token lists
-	s := n.printMin(c)
-	s = strings.ReplaceAll(s, "(", "( ")
-	s = strings.ReplaceAll(s, ")", " )")
-	return strings.Join(strings.Fields(s), " ")
+// toks is printMin as a token list (the form the Lean printer produces)
+func (n *pnode) toks(c int) []string {
+	wrap := func(t []string, own int) []string {
+		if own >= c {
+			return t
+		}
+		return append(append([]string{"("}, t...), ")")
+	}
+	cat := func(parts ...[]string) []string {
+		var out []string
+		for _, p := range parts {
+			out = append(out, p...)
+		}
+		return out
+	}
+	switch n.kind {
+	case "atom":
+		return []string{fmt.Sprintf("v%d", n.k)}
+	case "bin":
+		return wrap(cat(n.kids[0].toks(lctx(n.op)), []string{n.op}, n.kids[1].toks(rbp(n.op))), lbp(n.op))
+	case "un":
+		return wrap(cat([]string{n.op}, n.kids[0].toks(2*levUnary)), 2*levUnary)
+	case "tern":
+		return wrap(cat(n.kids[0].toks(2*levTernary+1), []string{"?"}, n.kids[1].toks(2*levTernary), []string{":"}, n.kids[2].toks(2*levTernary)), 2*levTernary)
+	case "call":
+		return cat(n.kids[0].toks(2*levPostfix), []string{"("}, n.kids[1].toks(0), []string{")"})
+	case "index":
+		return cat(n.kids[0].toks(2*levPostfix), []string{"["}, n.kids[1].toks(0), []string{"]"})
+	case "member":
+		return cat(n.kids[0].toks(2*levPostfix), []string{".f"})
+	case "slice":
+		return cat(n.kids[0].toks(2*levPostfix), []string{"["}, n.kids[1].toks(0), []string{":"}, n.kids[2].toks(0), []string{"]"})
+	}
+	return []string{"?"}
 }
+
+func (n *pnode) tokens(c int) string { return strings.Join(n.toks(c), " ") }
 
 type pgen struct {
 	r *rand.Rand
@@ -264,7 +313,12 @@ func streamParse(o *Out, r *rand.Rand, n int, thorough bool) {
 			}
 		}
 		if lt, ok := t.leanTree(); ok {
-			o.Case("(prmin "+lt+")", t.tokens(0), t.printMin(0), t.kind == "bin")
+			// the token list is the spelling that was parsed above, token by token
+			if strings.ReplaceAll(t.tokens(0), " ", "") != strings.ReplaceAll(t.printMin(0), " ", "") {
+				o.Fail(Failure{Oracle: "printer-self-check", Key: "printer-tokens-differ", Input: t.printMin(0), Detail: t.tokens(0)})
+			}
+			o.Case("(prmin "+lt+")", t.tokens(0), t.printMin(0), t.kind != "atom")
+			o.Sum.Hist["prmin:"+t.kind]++
 		}
 	}
 	// integer literals
